@@ -650,6 +650,28 @@ def run_c13(ctx):
                      're-derives every twin-built unit before it is used'])
 
 
+def run_c09(ctx):
+    build_harness(ctx)
+    quick = ctx.tier == 'quick'
+    model_check(ctx, 'CRCProps', 'CRCProps.cfg', workers=4)
+    model_check(ctx, 'PSIProps', 'PSIProps.cfg', workers=2)
+    sd = ctx.seed
+    scs = []
+    for k in TABLE_KINDS:
+        for i in range(4 if quick else 48):
+            scs.append({'sid': 'psi-corrupt-%s-%d' % (k, i), 'kind': 'psi', 'part': 'corrupt', 'k': k, 'seed': sd * 47 + i, 'n': 3 if quick else 8})
+    for i in range(8 if quick else 64):
+        scs.append({'sid': 'psi-muxer-%d' % i, 'kind': 'psi', 'part': 'muxer', 'seed': sd * 53 + i, 'n': 60 if quick else 400})
+    return pipeline(
+        ctx, 'Mon_C09', 'psi', scs,
+        rule='corruption: seeded one-packet units of 1..2 sections per table kind x every single-bit flip of every byte (exhaustive per unit), 12 byte '
+             'substitutions, 12 bursts of 2..32 bits, 8 truncations, 4 extensions, each demuxed by the real Demuxer and judged against the TLA+ '
+             'reference decoder (bitwise CRC); muxer: PAT/PMT payloads emitted by the real Muxer for 1..4 streams with descriptors of every supported '
+             'kind whose struct Length is correct, 0 or wrong',
+        assumptions=['weak reading of "outcome equals the reference decoder\'s": never an altered table; all tables when the reference decoder accepts the '
+                     'whole faulted unit; an error or nothing otherwise (DESIGN.md 7)', 'CRC-32 detects every burst of <= 32 bits, so the enumerated fault classes have no probabilistic escape'])
+
+
 PROPS = {
     'C01': lambda ctx: run_mux_family(ctx, 'C01'),
     'C04': lambda ctx: run_mux_family(ctx, 'C04'),
@@ -669,4 +691,5 @@ PROPS = {
     'C12': run_c12,
     'C14': run_c14,
     'C13': run_c13,
+    'C09': run_c09,
 }
